@@ -11,32 +11,10 @@ def prop(pid, **kw):
     META[pid] = kw
 
 
-prop(
-    "C16",
-    quick=[("native", 4), ("miri", 1)],
-    thorough=[("native", 16), ("asan", 4), ("miri", 2)],
-    level="exploration",
-    min_evals={"quick": 1_000_000, "thorough": 1_000_000_000},
-    rule=(
-        "pairs (a, a+d): thorough enumerates every d in 0..2^32 from 7 bases (exhaustive for those bases), "
-        "quick every d within 2^16 of 0, 2^31 and 2^32 from 8 bases plus a prime stride over the whole range; "
-        "add(n) over a boundary-dense n set x bases plus random (a, n); wire conversion over boundary and random values. "
-        "A case signature is (operation, base, difference region 0 / <2^31 / =2^31 / >2^31) or (add, wrap?, n class); "
-        "distinct_nontrivial counts those classes, evaluations counts single oracle comparisons."
-    ),
-    assumptions=[
-        "Serial::add is only specified for n <= 2^31-1; larger n (documented panic) is not exercised",
-        "comparison table taken from the property statement / RFC 1982, evaluated on u32 arithmetic written in the harness",
-    ],
-    level_text=(
-        "Runtime oracle (RFC 1982 table written from the statement) over every difference 0..2^32 from seven bases in the thorough tier "
-        "(exhaustive for those bases) and boundary windows plus a stride sample in the quick tier; Miri and ASan repeat a boundary subset. "
-        "Exhaustive enumeration of the one-dimensional difference space is the natural level for a property that depends on the difference only."
-    ),
-    level_note="Trusts the harness' own 20-line table and Rust integer arithmetic; bases other than the seven enumerated are sampled.",
-    technique="runtime oracle over exhaustive difference enumeration + Miri/ASan",
-    design_ref="DESIGN.md §4 C16",
-)
+
+import glob, os
+for _f in sorted(glob.glob(os.path.join(os.path.dirname(os.path.abspath(__file__)), "meta.d", "C*.py"))):
+    exec(compile(open(_f).read(), _f, "exec"))
 
 NOT_APPLICABLE = {}
 
